@@ -508,6 +508,163 @@ theorem stmtEffect_complete_media (O : Oracle) (M : List Cps) (st : SheetSt) (at
   by_cases ho : O.mediaOk mq = true <;> simp [ho, sheetInsert, Rule.kind]
 
 
+/-! ## containment inside an `@media` block -/
+
+/-- what a statement production of an `@media` block yields for the collected statement `stmt` (nested
+`@media` parsed with enough fuel) -/
+def mediaStmtRules (O : Oracle) (ns : List (Cps × Cps)) (t : Tok) (stmt : List Tok) : List Rule :=
+  mediaStmtEffect O ns (fun l => mediaRule O ns (stmt.length + 1) l) [] t stmt
+
+/-- the rules of one complete statement of a media block -/
+theorem mediaRules_stmt (O : Oracle) (ns : List (Cps × Cps)) (t : Tok) (g : List Tok) (e : Tok)
+    (stk' : List K) (h1 : t.typ ≠ .s) (h2 : t.typ ≠ .comment) (h3 : t.typ ≠ .eof)
+    (hq : Quiet .default (startStack t) g = true) (hn : nest (startStack t) g = some stk')
+    (hp : push stk' e = some []) (he : endTok .default e = true) :
+    mediaRules O ns (t :: g ++ [e]) = mediaStmtRules O ns t (t :: g ++ [e]) := by
+  show mediaLoop O ns (fun l => mediaRule O ns ((t :: g ++ [e]).length + 1) l) (t :: g ++ [e]) = _
+  have e2 : (t :: g ++ [e]) = t :: (g ++ e :: []) := by simp
+  rw [e2, mediaLoop_cons, mediaStep_stmt O ns _ [] t g e stk' [] h1 h2 h3 hq hn hp he]
+  simp [mediaLoop_nil, mediaStmtRules]
+
+/-- a statement of a media block that yields no rule can be taken out: the block parses as without it -/
+theorem mediaRules_drop_stmt (O : Oracle) (ns : List (Cps × Cps)) (m₁ m₂ : List Tok) (t : Tok)
+    (g : List Tok) (e : Tok) (stk' : List K) (hm : MediaSeq m₁)
+    (h1 : t.typ ≠ .s) (h2 : t.typ ≠ .comment) (h3 : t.typ ≠ .eof)
+    (hq : Quiet .default (startStack t) g = true) (hn : nest (startStack t) g = some stk')
+    (hp : push stk' e = some []) (he : endTok .default e = true)
+    (hdrop : mediaStmtRules O ns t (t :: g ++ [e]) = []) :
+    mediaRules O ns (m₁ ++ (t :: g ++ [e]) ++ m₂) = mediaRules O ns (m₁ ++ m₂) := by
+  have hu : MediaUnit (t :: g ++ [e]) := MediaUnit.stmt t g e stk' h1 h2 h3 hq hn hp he
+  rw [List.append_assoc, mediaRules_append O ns m₁ _ hm, mediaRules_append O ns _ m₂ (MediaSeq.single hu),
+    mediaRules_stmt O ns t g e stk' h1 h2 h3 hq hn hp he, hdrop, mediaRules_append O ns m₁ m₂ hm]
+  simp
+
+/-- an at-rule production of the media block -/
+def isMediaAt (t : Tok) : Bool :=
+  match t.typ with
+  | .charsetSym | .fontFaceSym | .importSym | .namespaceSym | .pageSym | .mediaSym | .atkeyword => true
+  | _ => false
+
+theorem mediaStmtRules_ruleset (O : Oracle) (ns : List (Cps × Cps)) (t : Tok) (stmt : List Tok)
+    (ht : startsMediaRuleset t = true) :
+    mediaStmtRules O ns t stmt =
+      match styleRule O ns stmt with
+      | some (sel, items) => [Rule.style ns sel items]
+      | none => [] := by
+  unfold startsMediaRuleset at ht
+  unfold mediaStmtRules mediaStmtEffect
+  split <;> simp_all [mediaInsert]
+  cases hsr : styleRule O ns stmt with
+  | none => rfl
+  | some p => obtain ⟨sel, items⟩ := p; rfl
+
+theorem mediaStmtRules_forbidden (O : Oracle) (ns : List (Cps × Cps)) (t : Tok) (stmt : List Tok)
+    (ht : isMediaAt t = true) (hf : mediaForbidden.contains (normalize t.val) = true) :
+    mediaStmtRules O ns t stmt = [] := by
+  unfold isMediaAt at ht
+  unfold mediaStmtRules mediaStmtEffect
+  split <;> simp_all
+
+theorem mediaStmtRules_unknown (O : Oracle) (ns : List (Cps × Cps)) (t : Tok) (stmt : List Tok)
+    (ht : isMediaAt t = true) (hf : mediaForbidden.contains (normalize t.val) = false)
+    (hp : normalize t.val ≠ atPage) (hm : normalize t.val ≠ atMedia) :
+    mediaStmtRules O ns t stmt = if unknownOk stmt then [Rule.unknown stmt] else [] := by
+  unfold isMediaAt at ht
+  unfold mediaStmtRules mediaStmtEffect
+  split <;> simp_all [mediaInsert]
+
+/-! ## a complete `@media` rule as a statement (of a media block, of the sheet) -/
+
+/-- the statement collected for a complete rule `t sel' { x }` -/
+theorem upto_default_closed_rule (t : Tok) (sel' x : List Tok) (lb rb : Tok) (rest : List Tok)
+    (hq : Quiet .default [] (t :: sel') = true) (hbal : nest [] (t :: sel') = some [])
+    (hl : lb.val = vLBrace) (hlt : lb.typ ≠ .eof)
+    (hx : nest [] x = some []) (hxe : noEof x = true) (hr : rb.val = vRBrace) :
+    Quiet .default (startStack t) (sel' ++ lb :: x) = true ∧
+    nest (startStack t) (sel' ++ lb :: x) = some [.brace] ∧ push [.brace] rb = some [] ∧
+    endTok .default rb = true ∧
+    upto .default (some t) ((sel' ++ lb :: x) ++ rb :: rest) = (t :: (sel' ++ lb :: x) ++ [rb], rest) := by
+  have q1 := quiet_cons_start .default t sel' hq
+  have n1 := nest_cons_start t sel' [] hbal
+  have hp : push [] lb = some [.brace] := by simp [push, lbrace_br lb hl]
+  have q2 : Quiet .default [] (lb :: x) = true := by
+    unfold Quiet
+    simp only [hp, Bool.and_eq_true, bne_iff_ne, ne_eq]
+    refine ⟨⟨hlt, by simp⟩, ?_⟩
+    exact quiet_lift .default [] [] .brace [] x hx hxe
+  have n2 : nest [] (lb :: x) = some [.brace] := by
+    unfold nest
+    simp only [hp]
+    exact nest_lift [] [] [.brace] x hx
+  have q := quiet_append .default (startStack t) [] sel' (lb :: x) q1 n1 q2
+  have n : nest (startStack t) (sel' ++ lb :: x) = some [.brace] := by
+    rw [nest_append, n1]; exact n2
+  have hpr : push [.brace] rb = some [] := by simp [push, rbrace_br rb hr]
+  have her : endTok .default rb = true := by simp [endTok, hr, Mode.ends, isInfixOf]
+  refine ⟨q, n, hpr, her, ?_⟩
+  exact upto_start_end .default [] [.brace] t (sel' ++ lb :: x) rb rest rfl (by simpa using q)
+    (by simpa using n) hpr her
+
+/-- a complete `@media` rule inside an `@media` block -/
+theorem mediaRules_complete_media (O : Oracle) (ns : List (Cps × Cps)) (at_ : Tok) (mq : List Tok)
+    (lb : Tok) (x : List Tok) (rb : Tok)
+    (hat : at_.typ = .mediaSym) (hv : normalize at_.val = atMedia) (hs : MqShape mq)
+    (hl : lb.val = vLBrace) (hlt : lb.typ = .char)
+    (hx : nest [] x = some []) (hxe : noEof x = true) (hr : rb.val = vRBrace) (hrt : rb.typ ≠ .eof) :
+    MediaUnit (at_ :: (mq ++ lb :: x) ++ [rb]) ∧
+    mediaRules O ns (at_ :: (mq ++ lb :: x) ++ [rb]) =
+      [if O.mediaOk mq then Rule.media (some (mq, none)) (mediaRules O ns x) else Rule.media none []] := by
+  obtain ⟨hq, hbal⟩ := mediaHead_quiet at_ mq hat hv hs
+  obtain ⟨q, n, hp, he, _⟩ := upto_default_closed_rule at_ mq x lb rb [] hq hbal hl (by simp [hlt]) hx hxe hr
+  have h1 : at_.typ ≠ .s := by simp [hat]
+  have h2 : at_.typ ≠ .comment := by simp [hat]
+  have h3 : at_.typ ≠ .eof := by simp [hat]
+  refine ⟨MediaUnit.stmt at_ _ rb [.brace] h1 h2 h3 q n hp he, ?_⟩
+  rw [mediaRules_stmt O ns at_ (mq ++ lb :: x) rb [.brace] h1 h2 h3 q n hp he]
+  have e : at_ :: (mq ++ lb :: x) ++ [rb] = at_ :: (mq ++ lb :: (x ++ [rb])) := by simp
+  have hm := mediaRule_complete O ns ((at_ :: (mq ++ lb :: (x ++ [rb]))).length + 1) at_ mq lb x rb
+    hat hs hl (by simp [hlt]) hx hxe hr hrt (by omega)
+  have hnf : mediaForbidden.contains (normalize at_.val) = false := by rw [hv]; decide
+  have hnp : normalize at_.val ≠ atPage := by rw [hv]; decide
+  have hnf' : (atMedia ∈ mediaForbidden) = False := by simp; decide
+  have hnp' : (atMedia = atPage) = False := by simp; decide
+  rw [e]
+  simp only [mediaStmtRules, mediaStmtEffect, hat, hnf, hnp, hv, hm, mediaInsert]
+  simp [hnf', hnp']
+
+/-- the full effect of a complete `@media` statement on the sheet state -/
+theorem stmtEffect_complete_media_state (O : Oracle) (M : List Cps) (st : SheetSt) (at_ : Tok)
+    (mq : List Tok) (lb : Tok) (d : List Tok) (rb : Tok)
+    (hat : at_.typ = .mediaSym) (hs : MqShape mq) (hl : lb.val = vLBrace) (hlt : lb.typ = .char)
+    (hd : nest [] d = some []) (hde : noEof d = true) (hr : rb.val = vRBrace) (hrt : rb.typ ≠ .eof) :
+    stmtEffect O M st at_ (at_ :: (mq ++ lb :: (d ++ [rb]))) =
+      { st with
+        rules := st.rules ++ [if O.mediaOk mq then Rule.media (some (mq, none)) (mediaRules O st.nsmap d)
+          else Rule.media none []]
+        expected := 3 } := by
+  have hm := mediaRule_complete O st.nsmap ((at_ :: (mq ++ lb :: (d ++ [rb]))).length + 1) at_ mq lb d rb
+    hat hs hl (by simp [hlt]) hd hde hr hrt (by omega)
+  simp only [stmtEffect, hat, hm]
+  by_cases ho : O.mediaOk mq = true <;> simp [ho, sheetInsert, Rule.kind]
+
+/-- the sheet dispatcher on a complete `@media` rule followed by anything -/
+theorem sheetLoop_complete_media (O : Oracle) (M : List Cps) (st : SheetSt) (at_ : Tok) (mq : List Tok)
+    (lb : Tok) (x : List Tok) (rb : Tok) (s₂ : List Tok)
+    (hat : at_.typ = .mediaSym) (hv : normalize at_.val = atMedia) (hs : MqShape mq)
+    (hl : lb.val = vLBrace) (hlt : lb.typ = .char)
+    (hx : nest [] x = some []) (hxe : noEof x = true) (hr : rb.val = vRBrace) (hrt : rb.typ ≠ .eof) :
+    sheetLoop O M st (at_ :: (mq ++ lb :: x) ++ rb :: s₂) =
+      sheetLoop O M { st with
+        rules := st.rules ++ [if O.mediaOk mq then Rule.media (some (mq, none)) (mediaRules O st.nsmap x)
+          else Rule.media none []]
+        expected := 3 } s₂ := by
+  obtain ⟨hq, hbal⟩ := mediaHead_quiet at_ mq hat hv hs
+  obtain ⟨q, n, hp, he, _⟩ := upto_default_closed_rule at_ mq x lb rb [] hq hbal hl (by simp [hlt]) hx hxe hr
+  rw [sheetLoop_stmt O M st at_ (mq ++ lb :: x) rb [.brace] s₂ (by simp [hat]) (by simp [hat]) (by simp [hat])
+    (by simp [hat]) (by simp [hat]) q n hp he]
+  have e : at_ :: (mq ++ lb :: x) ++ [rb] = at_ :: (mq ++ lb :: (x ++ [rb])) := by simp
+  rw [e, stmtEffect_complete_media_state O M st at_ mq lb x rb hat hs hl hlt hx hxe hr hrt]
+
 /-! ## certificates: the decidable checks of `Model/StructCut.lean` are sound -/
 
 theorem unsnoc_eq (l g : List Tok) (e : Tok) (h : unsnoc l = some (g, e)) : l = g ++ [e] := by
